@@ -285,7 +285,9 @@ Lemma apply_resume_nl : forall x wi sr r, nl x (apply_resume x wi sr r).
 Proof. intros. destruct r; unfold apply_resume; cbv zeta; nl_chain. Qed.
 
 Lemma fail_session_nl : forall x wi c, c <> FStepLimit -> nl x (fail_session x wi c).
-Proof. intros. unfold fail_session. eapply nl_trans; [apply nl_fail_run; auto|apply nl_with_session]. Qed.
+Proof.
+  intros x wi c H. unfold fail_session. apply (nl_trans _ (fail_run x wi None c)); [apply nl_fail_run; exact H|apply nl_with_session].
+Qed.
 
 
 Theorem start_limit_event_failed : forall a t f x',
@@ -295,7 +297,8 @@ Proof.
   intros H Hhas.
   destruct (cuw_nl_or_failed a _ _ _ _ _ (step_inv_init a _ _ (loop_inv_start t f (f_type fl0)) eq_refl)
               ltac:(intros [C _]; simpl in C; lia) H) as [N|F]; [|exact F].
-  rewrite (nl_from_empty _ _ eq_refl N) in Hhas. discriminate.
+  assert (K : has_limit_event (sp_events (sprint_ x')) = false) by (eapply nl_from_empty; [|exact N]; reflexivity).
+  congruence.
 Qed.
 
 Theorem resume_limit_event_failed : forall a s r tmo x',
@@ -309,10 +312,60 @@ Proof.
     pose proof (nl_trans _ _ _ (apply_resume_nl (resume_x0 s) wi (Some (wi, pos)) r) N2) as N02.
     symmetry in E.
     destruct (cuw_nl_or_failed a _ _ _ _ _ (step_inv_init a _ _ HL Hs) ltac:(intros [C _]; rewrite Hs in C; lia) E) as [N|F]; [|exact F].
-    rewrite (nl_from_empty (resume_x0 s) x' eq_refl (nl_trans _ _ _ N02 N)) in Hhas. discriminate.
+    assert (K : has_limit_event (sp_events (sprint_ x')) = false) by (eapply nl_from_empty; [|exact (nl_trans _ _ _ N02 N)]; reflexivity).
+    congruence.
 Qed.
 
 Theorem reachable_resume_limit_event_failed : forall a s r tmo x',
   reachable s -> resume_session a s r tmo = Resumed (ROk x') ->
   has_limit_event (sp_events (sprint_ x')) = true -> s_status (session_ x') = SFailed.
 Proof. intros. eapply resume_limit_event_failed; eauto. apply reachable_post; assumption. Qed.
+
+(* ---- and conversely: once crossed, the event stays in the sprint and the session ends failed -------------------- *)
+
+Definition iter_app (x : st) (r : iter) : Prop :=
+  match r with
+  | ICont x' _ => exists m, sp_events (sprint_ x') = sp_events (sprint_ x) ++ m
+  | IStop (ROk x') => exists m, sp_events (sprint_ x') = sp_events (sprint_ x) ++ m
+  | _ => True
+  end.
+
+Lemma nl_app : forall x x', nl x x' -> exists m, sp_events (sprint_ x') = sp_events (sprint_ x) ++ m.
+Proof. intros x x' (m & H & _). eauto. Qed.
+
+Lemma cuw_iter_app : forall a x l, loop_inv x l -> iter_app x (cuw_iter a x l).
+Proof.
+  intros a x l HL. rewrite cuw_iter_phases.
+  destruct (pick_dest a x l) as [[x1 l1] dest] eqn:Epd.
+  destruct (pick_dest_inv _ _ _ _ _ _ HL Epd) as (c & M & _).
+  destruct (nl_app _ _ (pick_dest_nl _ _ _ _ _ _ Epd)) as (m1 & H1).
+  rewrite (mi_cur _ _ _ _ M).
+  assert (K : forall r, iter_app x1 r -> iter_app x r).
+  { intros [[]|] Hr; simpl in *; auto; destruct Hr as (m & Hm); exists (m1 ++ m); rewrite Hm, H1, app_assoc; reflexivity. }
+  apply K. destruct dest as [d|].
+  - destruct (goto_node a x1 l1 c d) as [[x'| | |]|x' l'] eqn:E; simpl; auto.
+    + apply nl_app. eapply goto_node_stop_nl; eauto.
+    + destruct (goto_node_limit _ _ _ _ _ _ _ E) as [(_ & -> & _)|(_ & N)]; [|apply nl_app; exact N].
+      eexists. unfold fail_run, log_event; simpl. reflexivity.
+  - pose proof (finish_run_nl a x1 l1 c _ eq_refl) as N. destruct (finish_run a x1 l1 c) as [[]|]; simpl in *; auto; apply nl_app; exact N.
+Qed.
+
+Lemma cuw_crossed_ends_failed : forall a t0 fuel x l,
+  step_inv a t0 x l -> hit a l -> has_limit_event (sp_events (sprint_ x)) = true ->
+  match continue_until_wait fuel a x l with
+  | ROk x' => s_status (session_ x') = SFailed /\ has_limit_event (sp_events (sprint_ x')) = true
+  | ROutOfFuel => True
+  | _ => False
+  end.
+Proof.
+  intros a t0 fuel x l S Hh Hev.
+  pose proof (cuw_hit_ends_failed a t0 fuel x l S Hh) as K.
+  destruct (continue_until_wait fuel a x l) as [x'| | |] eqn:E; auto. split; [exact K|].
+  pose proof (cuw_induct a (fun x1 l1 => loop_inv x1 l1 /\ has_limit_event (sp_events (sprint_ x1)) = true)
+                (fun r => match r with ROk x2 => has_limit_event (sp_events (sprint_ x2)) = true | _ => True end)) as P.
+  specialize (P ltac:(intros x1 l1 x2 l2 [H1 H2] Ei; pose proof (cuw_iter_inv a x1 l1 H1) as K1; pose proof (cuw_iter_app a x1 l1 H1) as K2;
+                      rewrite Ei in K1, K2; destruct K2 as (m & Hm); split; [exact K1|rewrite Hm, has_limit_app, H2; reflexivity])).
+  specialize (P ltac:(intros x1 l1 r [H1 H2] Ei; pose proof (cuw_iter_app a x1 l1 H1) as K2; rewrite Ei in K2;
+                      destruct r; auto; destruct K2 as (m & Hm); rewrite Hm, has_limit_app, H2; reflexivity)).
+  specialize (P I fuel x l (conj (ti_loop _ _ _ (si_term _ _ _ _ S)) Hev)). rewrite E in P. exact P.
+Qed.
